@@ -27,6 +27,7 @@ CASE_TIMEOUT = {"quick": 90, "thorough": 180}
 def cases(tier):
     out = [("ens", r) for r in range(64 if tier == "quick" else 1600)]
     out += [("anti", r) for r in range(24 if tier == "quick" else 400)]
+    out += [("unamb", r) for r in range(64 if tier == "quick" else 1500)]
     return out
 
 
@@ -195,3 +196,27 @@ def _run_anti(ctx, spec, rng):
                 if ans is not FAILED:
                     ctx.check("O3:positive=>not-antidistinguishable", bool(ans) is False, sig=("random", dd, m), nt=True, mech="is_antidistinguishable:accepts-set-with-positive-exclusion-value",
                               detail={"certified_lower": lo})
+
+
+def _run_unamb(ctx, spec, rng):
+    """Unambiguous exclusion: primal/dual agreement on small pure ensembles with NON-uniform priors (only where both solves return;
+    cvxopt fails on most of these instances on the unchanged tree too, so many cheap instances are drawn)."""
+    from toqito.state_opt import state_exclusion
+
+    r = spec[1]
+    d = 2 + r % 2
+    n = int(rng.integers(2, d + 2))
+    cplx = bool((r // 2) % 2)
+    field = "complex" if cplx else "real"
+    vecs = [gen.unit(rng, d, cplx) for _ in range(n)]
+    p = gen.prior(rng, n, 1 + r % 2)
+    inp = [v.reshape(-1, 1).copy() for v in vecs] if r % 3 else [v.copy() for v in vecs]
+    up = _solve(ctx, state_exclusion, _fresh(inp), list(p), strategy="unambiguous", primal_dual="primal", mech=f"crash:state_exclusion-unambiguous-primal[{field}]")
+    ud = _solve(ctx, state_exclusion, _fresh(inp), list(p), strategy="unambiguous", primal_dual="dual", mech=f"crash:state_exclusion-unambiguous-dual[{field}]")
+    if up is None or ud is None or up[0] is None or ud[0] is None:
+        return
+    a, b = float(np.real(up[0])), float(np.real(ud[0]))
+    if np.isfinite(a) and np.isfinite(b):
+        ctx.check("O4:unambiguous-primal=dual", None, dev=abs(a - b), tol=1e-4, sig=(n, d, field, "non-uniform-prior"), nt=True, mech=f"state_exclusion-unambiguous:primal!=dual[{field}]",
+                  detail={"primal": a, "dual": b, "prior": p, "n": n, "d": d})
+        ctx.sample("O4:unambiguous-primal=dual", {"n": n, "d": d, "field": field, "prior": p, "primal": a, "dual": b})
